@@ -177,7 +177,18 @@ pub enum Mutation
     {
         pos: u16,
     },
+    /// A multi-byte character (kind 0: 3 bytes, 1: 4 bytes) or a broken one (kind 2: a lone 3-byte
+    /// lead followed by ASCII, 3: half a 4-byte character followed by ASCII) that starts `back`
+    /// (1-3) bytes before a buffer-size boundary; the file is padded with comment lines to reach it.
+    BoundaryChar
+    {
+        boundary: u8,
+        back: u8,
+        kind: u8,
+    },
 }
+
+pub const BOUNDARIES: &[usize] = &[4096, 8192, 16384, 32768, 65536, 131072, 1 << 20];
 
 #[derive(Clone, Debug, PartialEq, Eq, Hash, Serialize, Deserialize)]
 pub enum RawSource
@@ -283,6 +294,36 @@ pub fn apply_mutation(b: &mut Vec<u8>, m: &Mutation)
             let i = frac(*pos, b.len());
             b.splice(i..i, [0xC3u8, 0x28, 0xFF]);
         },
+        Mutation::BoundaryChar { boundary, back, kind } =>
+        {
+            let bd = BOUNDARIES[*boundary as usize % BOUNDARIES.len()];
+            let at = bd - (*back as usize).clamp(1, 3);
+            if b.last().map(|c| *c != b'\n').unwrap_or(false)
+            {
+                b.push(b'\n');
+            }
+            while b.len() < at + 40
+            {
+                b.extend_from_slice(b"// filler line to reach the next buffer boundary ......................\n");
+            }
+            // cut at a character boundary at or below `at`, pad with blanks up to `at` exactly
+            let q = char_floor(b, at);
+            let tail: Vec<u8> = b[q..].to_vec();
+            b.truncate(q);
+            while b.len() < at
+            {
+                b.push(b' ');
+            }
+            let ins: &[u8] = match kind % 4
+            {
+                0 => "日".as_bytes(),
+                1 => "𠮷".as_bytes(),
+                2 => &[0xE2, b'A', b'B'],
+                _ => &[0xF0, 0x9F, b'A', b'B'],
+            };
+            b.extend_from_slice(ins);
+            b.extend_from_slice(&tail);
+        },
     }
 }
 
@@ -349,8 +390,14 @@ pub fn mutation() -> BoxedStrategy<Mutation>
         1 => Just(Mutation::ToCrlf),
         1 => any::<u16>().prop_map(|pos| Mutation::Truncate { pos }),
         4 => (any::<u16>(), 0usize..UNICODE.len()).prop_map(|(pos, idx)| Mutation::Unicode { pos, idx }),
+        1 => (boundary_idx(), 1u8..=3, 0u8..2).prop_map(|(boundary, back, kind)| Mutation::BoundaryChar { boundary, back, kind }),
     ]
     .boxed()
+}
+
+fn boundary_idx() -> BoxedStrategy<u8>
+{
+    prop_oneof![3 => 0u8..4, 3 => Just(4u8), 1 => Just(5u8), 1 => Just(6u8)].boxed()
 }
 
 pub const TEXTS: &[&str] = &[
@@ -442,7 +489,11 @@ pub fn raw_file(cfg: &ConfigSpec, p: &RawParams) -> BoxedStrategy<RawFile>
     let mutations = if inv
     {
         vec(
-            prop_oneof![9 => mutation(), 1 => any::<u16>().prop_map(|pos| Mutation::InvalidUtf8 { pos })],
+            prop_oneof![
+                18 => mutation(),
+                2 => any::<u16>().prop_map(|pos| Mutation::InvalidUtf8 { pos }),
+                1 => (boundary_idx(), 1u8..=3, 2u8..4).prop_map(|(boundary, back, kind)| Mutation::BoundaryChar { boundary, back, kind }),
+            ],
             1..6,
         )
         .boxed()
